@@ -137,7 +137,7 @@ def infix_to_postfix(check: Check, rule: str = "PD") -> None:
 
         def step(cfg: tuple, tok: Tok) -> Any:
             env = env_of(cfg)
-            env[out_name] = []
+            env[out_name] = [MARK]  # what is already in the queue: new symbols must come after it
             env[tokvar] = tok
             ex.steps = 0
             try:
@@ -226,9 +226,9 @@ def infix_to_postfix(check: Check, rule: str = "PD") -> None:
                     report("rejects-valid", t2, f"token `{tok!r}` on operator stack {show_stack(rstack)} is rejected with {got[1]}", got[2])
                     continue
                 (rs2, rout) = want
-                if tuple(got[2]) != tuple(rout):
+                if tuple(got[2]) != (MARK,) + tuple(rout):
                     report("emits", t2, f"token `{tok!r}` on operator stack {show_stack(rstack)} must move {show_stack(rout)} to the output, the code moves "
-                           f"{show_stack(tuple(got[2]))}", None)
+                           f"{show_stack(tuple(got[2]))} (in this order, `{MARK.tag}` standing for the earlier output)", None)
                     continue
                 nxt = (got[1], rs2)
                 if nxt not in seen:
